@@ -99,7 +99,7 @@ Init == /\ \E t \in 1..Len(Toks), lim \in Lims : az = <<NewL(t, lim), None>> /\ 
 
 \* "loadreset": the round's content arrives as a snapshot made by a throw-away authorizer (slot 2) and LoadPolicies
 LoadContents == {Content(f, r, 0, p) : f \in 0..2, r \in 0..1, p \in 1..2}
-DoLoadRound == /\ stage = "add" /\ Shape = "loadreset"
+DoLoadRound == /\ stage = "add" /\ Shape \in {"loadreset", "mixed"}      \* "mixed": every round either adds directly or loads
                /\ \E x \in LoadContents :
                     LET helper == Add(New(az[1].tok), x) IN
                     /\ az' = [az EXCEPT ![1] = AfterLoad(@, SnapOf(helper)), ![2] = helper]
@@ -124,13 +124,13 @@ HadFailure == \E i \in 1..Len(hist) : \/ hist[i].op = "authorize" /\ hist[i].exp
 Interesting(failsNow) == (Lims # LimsNone /\ round = Rounds_) => (HadFailure \/ failsNow)
 Eval == /\ stage = "eval"
         /\ \/ ~EdgeAuth(az[1]) /\ Interesting(LimitFailsAuth(az[1])) /\ DoAuthorize(1)
-              /\ stage' = IF round = Rounds_ THEN (IF Shape \in {"reset", "loadreset"} THEN (IF LimitFailsAuth(az[1]) THEN "done" ELSE "final") ELSE "save") ELSE "reset"
+              /\ stage' = IF round = Rounds_ THEN (IF Shape \in {"reset", "loadreset", "mixed"} THEN (IF LimitFailsAuth(az[1]) THEN "done" ELSE "final") ELSE "save") ELSE "reset"
            \/ \E q \in 1..Len(Queries) : ~EdgeQuery(az[1]) /\ Interesting(LimitFailsQuery(az[1])) /\ DoQuery(1, q)
-              /\ stage' = IF round = Rounds_ THEN (IF Shape \in {"reset", "loadreset"} THEN (IF LimitFailsQuery(az[1]) THEN "done" ELSE "final") ELSE "save") ELSE "reset"
+              /\ stage' = IF round = Rounds_ THEN (IF Shape \in {"reset", "loadreset", "mixed"} THEN (IF LimitFailsQuery(az[1]) THEN "done" ELSE "final") ELSE "save") ELSE "reset"
         /\ UNCHANGED <<snap, round>>
 SkipEval == /\ stage = "eval" /\ Shape \in {"snapshot", "resnapshot"} /\ stage' = "save" /\ UNCHANGED <<az, snap, hist, round>>
 \* C13: content added but never evaluated before Reset
-SkipEvalReset == /\ stage = "eval" /\ Shape \in {"reset", "loadreset"} /\ round < Rounds_ /\ stage' = "reset" /\ UNCHANGED <<az, snap, hist, round>>
+SkipEvalReset == /\ stage = "eval" /\ Shape \in {"reset", "loadreset", "mixed"} /\ round < Rounds_ /\ stage' = "reset" /\ UNCHANGED <<az, snap, hist, round>>
 
 DoReset == /\ stage = "reset"
            /\ az' = [az EXCEPT ![1] = AfterReset(@)] /\ Log(H("reset", 1, [x |-> 0], [ok |-> TRUE]))
